@@ -371,8 +371,9 @@ def start_molecule(rng, cls_name, ctx):
     import molli as ml
 
     cls = getattr(ml, cls_name)
-    how = rng.choice(["empty", "mol2", "mol2", "mol2", "xyz", "copy", "pickle", "big"] if ctx.tier == "thorough"
-                     else ["empty", "mol2", "mol2", "mol2", "xyz", "copy", "pickle"])
+    how = rng.choice(["empty", "mol2", "mol2", "mol2", "xyz", "copy", "pickle"])
+    if ctx.tier == "thorough" and rng.random() < 0.02:
+        how = "big"       # 744 / 3215 atoms: every inspection is quadratic in the atom count, so these are rare and short
     if how == "empty":
         m = cls()
     elif how == "xyz":
@@ -405,7 +406,7 @@ def run_random(spec, ctx):
         rng = ctx.rng(*case)
         m, how = start_molecule(rng, spec["cls"], ctx)
         d = Driver(ctx, m, case, spec["cls"] == "Molecule")
-        L = rng.randrange(5, 41)
+        L = rng.randrange(5, 41) if how != "big" else rng.randrange(3, 9)
         kinds = []
         for _ in range(L):
             if not d.ok:
